@@ -171,6 +171,54 @@ class MAC_vectors(_MAC):
         return mac_value(phi_X, phi_A)
 
 
+@register
+class MAC_vectors_mixed(MAC_vectors):
+    """identified (complex) shape against a real reference shape: the dtypes of the two operands differ"""
+    name = "vectors, complex against real"
+
+    def setup(self, c):
+        n = S.integer("n_loc", lo=1)
+        return {"phi_X": S.array("phi_X", "complex", shape=(n,), finite=True),
+                "phi_A": S.array("phi_A", "float", shape=(n,), finite=True)}
+
+
+@register
+class MAC_vectors_mixed2(MAC_vectors):
+    name = "vectors, real against complex"
+
+    def setup(self, c):
+        n = S.integer("n_loc", lo=1)
+        return {"phi_X": S.array("phi_X", "float", shape=(n,), finite=True),
+                "phi_A": S.array("phi_A", "complex", shape=(n,), finite=True)}
+
+
+@register
+class MAC_vectors_real(MAC_vectors):
+    name = "vectors, real"
+
+    def setup(self, c):
+        n = S.integer("n_loc", lo=1)
+        return {"phi_X": S.array("phi_X", "float", shape=(n,), finite=True),
+                "phi_A": S.array("phi_A", "float", shape=(n,), finite=True)}
+
+
+@register
+class MAC_matrix_mixed(MAC_matrix):
+    """a complex vector set against a matrix of real reference shapes"""
+    name = "matrices, complex against real"
+    canaries = {}
+
+    def setup(self, c):
+        n = S.integer("n_loc", lo=1)
+        nx = S.integer("nX", lo=2)
+        na = S.integer("nA", lo=1)
+        return {"phi_X": S.array("phi_X", "complex", shape=(n, nx), finite=True),
+                "phi_A": S.array("phi_A", "float", shape=(n, na), finite=True)}
+
+    def check(me, c, pre, post, outcome):
+        Contract.check(me, c, pre, post, outcome)
+
+
 # ----------------------------------------------------------------------------------
 # MCF
 # ----------------------------------------------------------------------------------
